@@ -1,10 +1,12 @@
 package main
 
 import (
+	"bytes"
 	"errors"
 	"fmt"
 	"regexp"
 	"strings"
+	"testing/fstest"
 
 	"github.com/titpetric/vuego"
 )
@@ -12,10 +14,10 @@ import (
 // C13: an expression means the same everywhere.
 
 type c13E struct {
-	op   string // lit path bin not neg tern
-	typ  string // int bool str
-	lit  any
-	path string
+	op      string // lit path bin not neg tern
+	typ     string // int bool str
+	lit     any
+	path    string
 	a, b, c *c13E
 }
 
@@ -227,6 +229,47 @@ func c13Floats(r *Run) {
 	}
 }
 
+// one engine, the same expression texts, values of different Go types from one evaluation to the next
+// (a loop over mixed numbers, a second render with JSON-decoded data, a variable that disappears): what an
+// expression means may not depend on what the engine evaluated before
+func c13Mixed(r *Run) {
+	fsys := fstest.MapFS{"p.vuego": &fstest.MapFile{Data: []byte(
+		`<template v-for="x in xs"><i v-if="x == 1">one</i><i v-else>other</i></template>` +
+			`<p :title="n == 1 ? 'y' : 'n'" v-show="n == 1">{{ n == 1 ? 'yes' : 'no' }}|{{ n + 1 }}</p>` +
+			`<b>{{ role == "admin" ? 'A' : 'U' }}</b><u v-if="role == 'admin'">adm</u>`)}}
+	datas := []struct {
+		name string
+		d    map[string]any
+		want string
+	}{
+		{"ints", map[string]any{"xs": []any{1, int64(1), 1.0, 2}, "n": 1, "role": "admin"}, `<i>one</i><i>one</i><i>one</i><i>other</i><ptitle="y">yes|2</p><b>A</b><u>adm</u>`},
+		{"floats", map[string]any{"xs": []any{1.0, 2.0, uint8(1)}, "n": 1.0, "role": "user"}, `<i>one</i><i>other</i><i>one</i><ptitle="y">yes|2</p><b>U</b>`},
+		{"absent", map[string]any{"xs": []any{int32(1)}, "n": int64(1)}, `<i>one</i><ptitle="y">yes|2</p><b>U</b>`},
+		{"strings", map[string]any{"xs": []any{"1", 1}, "n": 2, "role": "admin"}, `<i>other</i><i>one</i><ptitle="n"style="display:none;">no|3</p><b>A</b><u>adm</u>`},
+	}
+	render := func(v *vuego.Vue, d map[string]any) string {
+		var buf bytes.Buffer
+		if err := v.Render(&buf, "p.vuego", d); err != nil {
+			return "error: " + err.Error()
+		}
+		return strings.Join(strings.Fields(buf.String()), "")
+	}
+	for i := range datas {
+		for j := range datas {
+			shared := vuego.NewVue(fsys)
+			_ = render(shared, datas[i].d)
+			got := render(shared, datas[j].d)
+			fresh := render(vuego.NewVue(fsys), datas[j].d)
+			r.Eval("mixed:"+datas[i].name+">"+datas[j].name, true, nil)
+			r.Count("stream:mixed-types(oracle only)")
+			if got != fresh || (got != datas[j].want && !strings.Contains(datas[j].want, "style=")) {
+				r.Fail("the same expression text gives another result after the engine evaluated it with values of another type", map[string]string{"oracle": "type-history", "second": datas[j].name},
+					map[string]any{"first_data": datas[i].name, "second_data": datas[j].name, "after_first": got, "fresh_engine": fresh, "expected": datas[j].want})
+			}
+		}
+	}
+}
+
 func init() { streams["C13"] = runC13 }
 
 func runC13(r *Run) {
@@ -272,6 +315,7 @@ func runC13(r *Run) {
 		classify(e, true)
 	}
 	c13Floats(r)
+	c13Mixed(r)
 	// ---------- positions ----------
 	n := 900
 	if r.Thorough() {
@@ -486,7 +530,7 @@ func c13Pipes(r *Run) {
 		{"tag", "tag", func(v any) (any, bool) { return fmt.Sprintf("%T:%v:", v, v), true }},
 		{"nosuch", "nosuch", func(v any) (any, bool) { return nil, false }},
 		{"fails", "fails", func(v any) (any, bool) { return nil, false }},
-		{"join2", "join2", func(v any) (any, bool) { return nil, false }},          // wrong argument count
+		{"join2", "join2", func(v any) (any, bool) { return nil, false }},         // wrong argument count
 		{"double(1, 2)", "double", func(v any) (any, bool) { return nil, false }}, // wrong argument count
 		{"isPos", "isPos", func(v any) (any, bool) {
 			if i, ok := asInt(v); ok {
